@@ -222,7 +222,7 @@ def job_svg_glyphs(jc):
     def body():
         # wide enough that one glyph id is a decimal prefix of another in the same document (2 and 20..29, 10 and 100..)
         lo = core.integer("lo", 1, 11).concretize()
-        span = core.integer("span", 0, 20 if jc.tier == "quick" else 100).concretize()
+        span = core.integer("span", 0, 20 if jc.tier == "quick" else 60).concretize()
         gids = list(range(lo, lo + span + 1))
         doc = '<svg xmlns="http://www.w3.org/2000/svg"><defs/>' + "".join(f'<g id="glyph{g}"><path d="M0,0 L{g},0 L0,{g} Z"/></g>' for g in gids) + "</svg>"
         font = {"SVG ": Tbl(docList=[(doc, gids[0], gids[-1])])}
